@@ -482,7 +482,7 @@ def solo_length(start_db: str, row: int, events: bool = False) -> int:
 # ---------------------------------------------------------------------------
 
 
-def run_workers(spec: dict, nworkers: int, policy: Policy, *, events: bool = False, max_msgs: int = 600, extra_bodies: dict | None = None, pre_hook=None, start_db: str | None = None, watchdog: float = 90.0, world_kw: dict | None = None, ack_fn=None, records: list | None = None, with_sched=None):
+def run_workers(spec: dict, nworkers: int, policy: Policy, *, events: bool = False, max_msgs: int = 600, extra_bodies: dict | None = None, pre_hook=None, start_db: str | None = None, watchdog: float = 90.0, world_kw: dict | None = None, ack_fn=None, records: list | None = None, with_sched=None, keep_world: bool = False):
     """N worker threads, each looping poll_one -> _handle_message -> ack on the shared
     database, interleaved at statement granularity.  Idle workers park; when every worker
     is idle and only delayed rows remain, the earliest one is warped (virtual time)."""
@@ -610,10 +610,14 @@ def run_workers(spec: dict, nworkers: int, policy: Policy, *, events: bool = Fal
             from .runs import delivery_run
 
             os.environ["STABILIZE_SQLITE_BUSY_TIMEOUT_MS"] = "0"
+            if keep_world:
+                run, _ = delivery_run({}, world=w, resubmit=False, max_steps=400, keep_world=True)
+                info["world"] = w
+                return run, info
             run = delivery_run({}, world=w, resubmit=False, max_steps=400, keep_world=False)
             w = None
     finally:
-        if w is not None:
+        if w is not None and not (keep_world and "world" in info):
             w.close()
     return (None if sched.failed else run), info
 
